@@ -76,8 +76,10 @@ function render0(t, st) {
       return `[${items.join(", ")}]`;
     }
     case "object": {
-      const deco = (name) => (st.jsdoc ? `/** doc of ${name.replace(/[^a-zA-Z0-9 ]/g, "_")} */ ` : "") + (st.comments ? `/* c */ ` : "");
-      const ms = t.props.map((p) => `${deco(p.name)}${st.readonly ? "readonly " : ""}${propName(p.name)}${p.opt ? "?" : ""}: ${R(p.t)}`);
+      // swc attaches a comment that follows a token on the same line to that token (trailing), so a JSDoc
+      // only reaches the property when it starts a line
+      const deco = (name) => (st.jsdoc ? `\n/** doc of ${name.replace(/[^a-zA-Z0-9 ]/g, "_")} */\n` : "") + (st.comments ? `/* c */ ` : "");
+      const ms = t.props.map((p) => `${p.doc ? `\n/** ${p.doc} */\n` : ""}${deco(p.name)}${st.readonly ? "readonly " : ""}${propName(p.name)}${p.opt ? "?" : ""}: ${R(p.t)}`);
       for (const ix of t.index || []) ms.push(`[key: ${Rplain(ix.key)}]: ${R(ix.val)}`);
       return ms.length === 0 ? "{}" : `{ ${ms.join("; ")} }`;
     }
